@@ -18,6 +18,11 @@ TplC17t == (TplC17q \cup {P("ok", "", <<"none">>), P("ok", "", <<"word", "word">
 TplC17c == {P("rpc", ToString(c), <<>>) : c \in 1..16} \cup {P("ok", "", <<"word">>)}
 \* C17, both tiers: endpoints dead at transport level in every position, under a wide and a tight request budget
 TplC17d == {P("ok", "", <<"word">>), P("ok", "", <<"none", "spaces">>), P("rpc", "any", <<>>), P("refused", "", <<>>), P("acceptclose", "", <<>>)}
+\* C17: reply lines at the 64 KiB / 128 KiB / 1 MiB boundaries in every line position (the comment carries the length)
+LongTpls(Ls) == UNION {{P("ok", "", <<l>>), P("ok", "", <<l, "word">>), P("ok", "", <<"word", l>>), P("ok", "", <<"word", "word", l>>),
+                        P("ok", "", <<"word", l, "none">>)} : l \in Ls}
+TplC17lq == LongTpls({"L65535", "L65536", "L65537", "L131072"}) \cup {P("ok", "", <<"word">>), P("rpc", "any", <<>>)}
+TplC17lt == LongTpls({"L65534", "L65535", "L65536", "L65537", "L65538", "L131072", "L1048576"}) \cup {P("ok", "", <<"word">>), P("rpc", "any", <<>>)}
 NoBundle == {[cas |-> {}, lay |-> "none"]}
 
 \* C18: server identity x protocol range x client-certificate policy
@@ -29,6 +34,13 @@ TplC18req == {T(k[1], k[2], "request", "ok", "", <<"word">>) : k \in TlsKinds}
 \* C18, both tiers: process history (other TLS configurations in the same process) and tight request budgets
 TplC18h == {T("ca1", "tls13", "request", "ok", "", <<"word">>), T("ca2", "tls13", "request", "ok", "", <<"word">>),
             T("foreign", "tls13", "ignore", "ok", "", <<"word">>), T("ca1", "tls12", "require", "ok", "", <<"word">>)}
+\* C18: impostors in front of the genuine server, several tries per endpoint, bounded (ample) request budget
+TplC18r == {T("ca1", "tls13", "request", "ok", "", <<"word">>), T("foreign", "tls13", "ignore", "ok", "", <<"word">>),
+            T("ca1", "tls11", "request", "ok", "", <<"word">>)}
+Ca1Only == {[cas |-> {"ca1"}, lay |-> "one"]}
+Ample == {"ample"}
+One == {1}
+Three == {3}
 Wide == {"wide"}
 WideTight == {"wide", "tight"}
 WideTightNone == {"wide", "tight", "none"}
@@ -49,5 +61,5 @@ BoTable == [base |-> {"zero", "small", "max"}, mult |-> {"1", "1.5", "3", "1e308
 BoModel == [cfgs |-> BoCfgs, attempts |-> BoAttempts]
 ASSUME PrintT(<<"BOT", ToJson([classes |-> BoTable, model |-> BoModel])>>)
 
-EmitCase == (pc = "new" /\ last.op = "init") => PrintT(<<"CASE", ToJson([eps |-> eps, bundle |-> bundle, ctx |-> env.ctx, hist |-> env.hist])>>)
+EmitCase == (pc = "new" /\ last.op = "init") => PrintT(<<"CASE", ToJson([eps |-> eps, bundle |-> bundle, ctx |-> env.ctx, tries |-> env.tries, hist |-> env.hist])>>)
 =============================================================================
